@@ -169,6 +169,159 @@ Proof.
 Qed.
 End Gen.
 
+
+(* ---------- reachability (access_p) ---------- *)
+Section Reach.
+Variable R : list (nat * list nat).
+Variable root : nat.
+
+Inductive reachable : nat -> Prop :=
+| rf_root : reachable root
+| rf_step x rhs s : reachable x -> In (x, rhs) R -> In s rhs -> reachable s.
+
+Definition addall (rhs acc : list nat) : list nat := fold_left (fun a s => if memn s a then a else a ++ [s]) rhs acc.
+Definition rstep (acc : list nat) (r : nat * list nat) : list nat := if memn (fst r) acc then addall (snd r) acc else acc.
+Definition rpass (set : list nat) : list nat := fold_left rstep R set.
+
+Lemma addall_ext : forall rhs acc, exists extra, addall rhs acc = acc ++ extra.
+Proof.
+  induction rhs as [|s rhs IH]; intros acc; cbn [addall fold_left]; [exists []; rewrite app_nil_r; reflexivity|].
+  destruct (memn s acc); [apply IH|]. destruct (IH (acc ++ [s])) as (e & E). exists ([s] ++ e). unfold addall in E. rewrite E, app_assoc. reflexivity.
+Qed.
+Lemma addall_in : forall rhs acc s, In s rhs -> In s (addall rhs acc).
+Proof.
+  induction rhs as [|x rhs IH]; intros acc s H; [destruct H|]. cbn [addall fold_left]. destruct H as [->|H].
+  - destruct (memn s acc) eqn:E.
+    + destruct (addall_ext rhs acc) as (e & X). unfold addall in X. rewrite X. apply in_or_app. left. apply memn_In. exact E.
+    + destruct (addall_ext rhs (acc ++ [s])) as (e & X). unfold addall in X. rewrite X. apply in_or_app. left. apply in_or_app. right. left. reflexivity.
+  - destruct (memn x acc); apply IH; exact H.
+Qed.
+Lemma addall_same : forall rhs acc, (forall s, In s rhs -> In s acc) -> addall rhs acc = acc.
+Proof.
+  induction rhs as [|x rhs IH]; intros acc H; [reflexivity|]. cbn [addall fold_left].
+  assert (E : memn x acc = true) by (apply memn_In, H; left; reflexivity). rewrite E. apply IH. intros s Hs. apply H. right. exact Hs.
+Qed.
+Lemma addall_from : forall rhs acc s, In s (addall rhs acc) -> In s acc \/ In s rhs.
+Proof.
+  induction rhs as [|x rhs IH]; intros acc s H; [left; exact H|]. cbn [addall fold_left] in H. destruct (memn x acc).
+  - destruct (IH _ _ H); [left; assumption | right; right; assumption].
+  - destruct (IH _ _ H) as [X|X]; [|right; right; exact X]. apply in_app_or in X. destruct X as [X|[<-|[]]]; [left; exact X | right; left; reflexivity].
+Qed.
+
+Lemma rstep_ext acc r : exists extra, rstep acc r = acc ++ extra.
+Proof. unfold rstep. destruct (memn (fst r) acc); [apply addall_ext | exists []; rewrite app_nil_r; reflexivity]. Qed.
+Lemma rfold_ext : forall rs acc, exists extra, fold_left rstep rs acc = acc ++ extra.
+Proof.
+  induction rs as [|r rs IH]; intros acc; cbn [fold_left]; [exists []; rewrite app_nil_r; reflexivity|].
+  destruct (rstep_ext acc r) as (e1 & ->). destruct (IH (acc ++ e1)) as (e2 & ->). exists (e1 ++ e2). rewrite app_assoc. reflexivity.
+Qed.
+Lemma rpass_mono set x : In x set -> In x (rpass set).
+Proof. intros H. unfold rpass. destruct (rfold_ext R set) as (e & ->). apply in_or_app. left. exact H. Qed.
+
+(* soundness *)
+Lemma rfold_sound : forall rs acc, (forall r, In r rs -> In r R) -> (forall x, In x acc -> reachable x) ->
+  forall x, In x (fold_left rstep rs acc) -> reachable x.
+Proof.
+  induction rs as [|r rs IH]; intros acc Hin HS x Hx; cbn [fold_left] in Hx; [apply HS; exact Hx|].
+  apply (IH (rstep acc r)); auto; [intros r' Hr'; apply Hin; right; exact Hr'|].
+  intros y Hy. unfold rstep in Hy. destruct (memn (fst r) acc) eqn:E; [|apply HS; exact Hy].
+  apply addall_from in Hy. destruct Hy as [Hy|Hy]; [apply HS; exact Hy|].
+  apply (rf_step (fst r) (snd r) y); [apply HS, memn_In, E | destruct r; apply Hin; left; reflexivity | exact Hy].
+Qed.
+Lemma riter_sound n : forall set, (forall x, In x set -> reachable x) -> forall x, In x (iter n rpass set) -> reachable x.
+Proof. induction n as [|n IH]; intros set H x Hx; cbn [iter] in Hx; [apply H; exact Hx|]. apply (IH (rpass set)); auto. apply rfold_sound; auto. Qed.
+
+(* one pass fires every rule whose left-hand side is in the set *)
+Lemma rfold_fires : forall rs acc r, In r rs -> In (fst r) acc -> forall s, In s (snd r) -> In s (fold_left rstep rs acc).
+Proof.
+  induction rs as [|r0 rs IH]; intros acc r Hr Hl s Hs; [destruct Hr|]. cbn [fold_left]. destruct Hr as [->|Hr].
+  - destruct (rfold_ext rs (rstep acc r)) as (e & ->). apply in_or_app. left. unfold rstep.
+    assert (E : memn (fst r) acc = true) by (apply memn_In; exact Hl). rewrite E. apply addall_in. exact Hs.
+  - apply (IH _ r Hr); [|exact Hs]. destruct (rstep_ext acc r0) as (e & ->). apply in_or_app. left. exact Hl.
+Qed.
+
+(* a set closed under the rules is not changed by a pass *)
+Lemma rfold_closed : forall rs T, (forall r, In r rs -> In (fst r) T -> forall s, In s (snd r) -> In s T) -> fold_left rstep rs T = T.
+Proof.
+  induction rs as [|r rs IH]; intros T H; [reflexivity|]. cbn [fold_left].
+  assert (E : rstep T r = T).
+  { unfold rstep. destruct (memn (fst r) T) eqn:M; [|reflexivity]. apply addall_same. intros s Hs. apply (H r); [left; reflexivity | apply memn_In; exact M | exact Hs]. }
+  rewrite E. apply IH. intros r' Hr'. apply H. right. exact Hr'.
+Qed.
+Lemma rstable_closed T : rpass T = T -> forall r, In r R -> In (fst r) T -> forall s, In s (snd r) -> In s T.
+Proof. intros HS r Hr Hl s Hs. rewrite <- HS. apply (rfold_fires R T r Hr Hl s Hs). Qed.
+
+(* progress measure: the number of rules whose left-hand side is in the set *)
+Definition cnt (set : list nat) : nat := length (filter (fun r => memn (fst r) set) R).
+
+Lemma filter_len_mono {A} (p q : A -> bool) l : (forall x, p x = true -> q x = true) -> length (filter p l) <= length (filter q l).
+Proof.
+  intros H. induction l as [|x l IH]; cbn [filter]; [lia|]. destruct (p x) eqn:P.
+  - rewrite (H x P). cbn [length]. lia.
+  - destruct (q x); cbn [length]; lia.
+Qed.
+Lemma filter_len_eq {A} (p q : A -> bool) l : (forall x, p x = true -> q x = true) ->
+  length (filter p l) = length (filter q l) -> forall x, In x l -> q x = p x.
+Proof.
+  intros H. induction l as [|y l IH]; intros E x Hx; [destruct Hx|]. cbn [filter] in E.
+  pose proof (filter_len_mono p q l H) as M. destruct (p y) eqn:P.
+  - rewrite (H y P) in E. cbn [length] in E. destruct Hx as [<-|Hx]; [rewrite (H y P), P; reflexivity | apply IH; [lia | exact Hx]].
+  - destruct (q y) eqn:Q; cbn [length] in E; [lia|]. destruct Hx as [<-|Hx]; [congruence | apply IH; [exact E | exact Hx]].
+Qed.
+
+Lemma cnt_mono set : cnt set <= cnt (rpass set).
+Proof. apply filter_len_mono. intros r H. apply memn_In. apply rpass_mono. apply memn_In. exact H. Qed.
+Lemma cnt_bound set : cnt set <= length R.
+Proof. unfold cnt. induction R as [|r l IH]; cbn [filter length]; [lia|]. destruct (memn (fst r) set); cbn [length]; lia. Qed.
+
+Lemma rpass_progress set : rpass (rpass set) = rpass set \/ cnt set < cnt (rpass set).
+Proof.
+  destruct (Nat.eq_dec (cnt set) (cnt (rpass set))) as [E|N]; [left | right; pose proof (cnt_mono set); lia].
+  assert (Same : forall r, In r R -> memn (fst r) (rpass set) = memn (fst r) set).
+  { apply (filter_len_eq (fun r => memn (fst r) set) (fun r => memn (fst r) (rpass set)) R); [|exact E].
+    intros r H. apply memn_In. apply rpass_mono. apply memn_In. exact H. }
+  apply rfold_closed. intros r Hr Hl s Hs.
+  assert (Hl' : In (fst r) set) by (apply memn_In; rewrite <- (Same r Hr); apply memn_In; exact Hl).
+  apply (rfold_fires R set r Hr Hl' s Hs).
+Qed.
+
+Lemma rstable_stays n : forall set, rpass set = set -> iter n rpass set = set.
+Proof. induction n as [|n IH]; intros set H; cbn [iter]; [reflexivity|]. rewrite H. apply IH, H. Qed.
+
+Lemma iter_S {A} (f : A -> A) n : forall x, iter (S n) f x = f (iter n f x).
+Proof. induction n as [|n IH]; intros x; [reflexivity|]. cbn [iter] in *. rewrite <- IH. reflexivity. Qed.
+
+(* after n passes either the next pass already changes nothing, or at least n rules have their left-hand side in the set *)
+Lemma riter_progress n : forall set,
+  rpass (iter (S n) rpass set) = iter (S n) rpass set \/ n <= cnt (iter n rpass set).
+Proof.
+  induction n as [|n IH]; intros set; [right; lia|].
+  destruct (IH set) as [St|G].
+  - left. rewrite (iter_S rpass (S n)). rewrite St. exact St.
+  - rewrite !iter_S. destruct (rpass_progress (iter n rpass set)) as [St|L].
+    + left. rewrite St. exact St.
+    + right. lia.
+Qed.
+
+Theorem reach_result_stable : rpass (iter (S (length R)) rpass [root]) = iter (S (length R)) rpass [root].
+Proof.
+  destruct (riter_progress (length R) [root]) as [St|G]; [exact St|].
+  rewrite iter_S. destruct (rpass_progress (iter (length R) rpass [root])) as [S2|L]; [exact S2|].
+  pose proof (cnt_bound (rpass (iter (length R) rpass [root]))). lia.
+Qed.
+
+Theorem reach_result_spec x : In x (iter (S (length R)) rpass [root]) <-> reachable x.
+Proof.
+  split.
+  - apply riter_sound. intros y [<-|[]]. constructor.
+  - intros H. induction H as [|y rhs s Hy IH Hr Hs].
+    + assert (M : forall n set, In root set -> In root (iter n rpass set)).
+      { induction n as [|n IHn]; intros set Hin; cbn [iter]; [exact Hin|]. apply IHn. apply rpass_mono. exact Hin. }
+      apply M. left. reflexivity.
+    + apply (rstable_closed _ reach_result_stable (y, rhs) Hr IH s Hs).
+Qed.
+End Reach.
+
 (* ---------- the two closures of set_empty_access_derives ---------- *)
 Section Inst.
 Variable terms : list (nat * Z).
@@ -190,5 +343,12 @@ Theorem nullable_spec x :
   memn x (nullable rules) = true <->
   exists rhs, In (x, rhs) (arules rules) /\ gen (arules rules) (fun _ => false) rhs.
 Proof. rewrite memn_In, nullable_is_result. apply result_spec. Qed.
+
+(* x is marked accessible iff it can be reached from the axiom through right-hand sides *)
+Lemma reachable_is_result : ReadGrammar.reachable rules = iter (S (length (arules rules))) (rpass (arules rules)) [n_axiom].
+Proof. reflexivity. Qed.
+Theorem reachable_spec x :
+  memn x (ReadGrammar.reachable rules) = true <-> reachable (arules rules) n_axiom x.
+Proof. rewrite memn_In, reachable_is_result. apply reach_result_spec. Qed.
 
 End Inst.
